@@ -18,12 +18,13 @@ use std::ops::Range;
 pub static INFO: PropInfo = PropInfo {
     id: "C08",
     level: "fault_enumeration",
-    rule: "two kinds of evaluation. (A) enumerated small scope (exhaustive: true refers to this sub-space only): for n <= 6 (quick) / 7 (thorough) EVERY ordered subset of the packet sequence numbers {0..n-1} (1957 / 13700 orders), each in 3 numberings (dense, stride 2, stride 1000 from a large base), is fed packet by packet to a fresh endpoint through process_packet; after every packet the recorded pending-ack list (hook) must be sorted, disjoint, non-adjacent, <= 64 ranges and denote exactly the fed set, and the ack packet emitted next must denote exactly that set. (B) sampled large scope: simulated lossy sessions (all fault profiles, ack-starved and data-starved directions, >64 disjoint ranges, acks of acks); after every arrival / send / tick the monitor computes from the hook the set of messages the sender no longer retransmits and requires each to have been delivered completely (all slices, byte-identical, decoded with the crate's decoder) to the still-connected peer; the public byte accounting (max - available = sum of lengths of unreleased messages) cross-checks the hook; every emitted Ack range must be a subset of the sequence numbers actually delivered to its emitter. Non-trivial (B) = faults occurred AND at least one message was released; distinct = fingerprints of the fed order (A) / event log (B).",
+    rule: "two kinds of evaluation. (A) enumerated small scope (exhaustive: true refers to this sub-space only): for n <= 6 (quick) / 7 (thorough) EVERY ordered subset of the packet sequence numbers {0..n-1} (1957 / 13700 orders), each in 3 numberings (dense, stride 2, stride 1000 from a large base), is fed packet by packet to a fresh endpoint through process_packet; after every packet the recorded pending-ack list (hook) must be sorted, disjoint, non-adjacent, <= 64 ranges and denote exactly the fed set, and the ack packet emitted next must denote exactly that set. (B) sampled large scope: simulated lossy sessions (all fault profiles, ack-starved and data-starved directions, >64 disjoint ranges, acks of acks); after every arrival / send / tick the monitor computes from the hook the set of messages the sender no longer retransmits and requires each to have been delivered completely (all slices, byte-identical, decoded with the crate's decoder) to the still-connected peer; the public byte accounting (max - available = sum of lengths of unreleased messages) cross-checks the hook; every emitted Ack range must be a subset of the sequence numbers actually delivered to its emitter. Non-trivial (B) = faults occurred AND at least one message was released; distinct = fingerprints of the fed order (A) / event log (B). Plus one LONG ACK RANGE run per check (per shard in the thorough tier): packet 0 arrives, packets 1..k are lost, more than 2^16 later packets arrive while nothing of the reverse direction gets through; after the receiver's acknowledgement ('0 and one very long run') the sender must still hold exactly messages 1..k.",
     assumptions: &[
         "the sequence number of a delivered packet is read with the crate's own decoder",
         "wire message ids are mapped to submissions by content",
     ],
     gates: &[
+        ("long_ack_range_runs", 1),
         ("orders_enumerated", 1957),
         ("release_checked", 2000),
         ("ack_packets_checked", 2000),
@@ -38,8 +39,67 @@ pub static INFO: PropInfo = PropInfo {
 pub fn run(ctx: &Ctx, out: &mut Outcome) {
     if ctx.replay_seed.is_none() {
         enumerate(ctx, out);
+        if ctx.shard == 0 || ctx.thorough() {
+            long_ack_range(ctx, out);
+        }
     }
     super::run_loop(ctx, out, 3000, 300_000, 8, one_run);
+}
+
+/// One long one-way run: packet 0 (reliable message 0) arrives, packets 1..=k (reliable messages 1..=k) are lost, then
+/// more than 2^16 further packets (tiny unreliable messages) arrive while none of the sender's own packets of the
+/// reverse direction get through, so the receiver's acknowledgement is "0, and one very long run above the hole".
+/// When that acknowledgement is processed the sender may release message 0 and nothing else.
+fn long_ack_range(ctx: &Ctx, out: &mut Outcome) {
+    use bytes::Bytes;
+    use std::time::Duration;
+    let seed = ctx.shard_seed(0xACC8);
+    let mut r = Rng::new(seed);
+    let cc = ConnectionConfig::default(); // 0 unreliable, 1 reliable unordered, 2 reliable ordered
+    let mut s = RenetClient::new(cc.clone());
+    s.set_connected();
+    let mut rcv = RenetClient::new(cc); // the default lists are the same in both directions
+    rcv.set_connected();
+    let ch = if r.chance(1, 2) { 1u8 } else { 2u8 };
+    let k = r.range(1, 6);
+    // packet 0 arrives
+    s.send_message(ch, Bytes::from(vec![0u8; 30]));
+    for p in s.get_packets_to_send() {
+        rcv.process_packet(&p);
+    }
+    // packets 1..=k are lost
+    for i in 1..=k {
+        s.send_message(ch, Bytes::from(vec![i as u8; 30]));
+        let _ = s.get_packets_to_send();
+    }
+    // a long run of later packets arrives (time does not advance: nothing is resent meanwhile)
+    let run = 65_536 + r.range(3, 5000);
+    for i in 0..run {
+        s.send_message(0, Bytes::from(vec![(i % 251) as u8; 1]));
+        s.update(Duration::ZERO);
+        for p in s.get_packets_to_send() {
+            rcv.process_packet(&p);
+        }
+        while rcv.receive_message(0).is_some() {}
+    }
+    let pending = rcv.verif_pending_acks();
+    let before: BTreeSet<u64> = s.verif_unacked(ch).unwrap_or_default().into_iter().collect();
+    for p in rcv.get_packets_to_send() {
+        s.process_packet(&p);
+    }
+    let after: BTreeSet<u64> = s.verif_unacked(ch).unwrap_or_default().into_iter().collect();
+    out.count("long_ack_range_runs");
+    out.eval(crate::rng::mix(&[0xACC8, seed]), true);
+    let expected: BTreeSet<u64> = (1..=k).collect();
+    if after != expected || s.is_disconnected() || rcv.is_disconnected() {
+        out.violation(
+            ctx,
+            "C08/released-before-delivery/long-ack-range",
+            "the sender gives a reliable message up only after every packet needed to rebuild it has been handed to the peer",
+            format!("packets 1..={} (reliable messages 1..={}) were never delivered, {} later packets were; the receiver recorded {:?}; after its acknowledgement the sender still holds {:?} (before: {:?}), expected {:?}", k, k, run, pending, after, before, expected),
+            json!({"property": "C08", "engine": ctx.engine, "mode": "long-ack-range", "seed": seed, "lost": k, "run": run}),
+        );
+    }
 }
 
 // ------------------------------------------------------------------------------------------
